@@ -5,7 +5,7 @@ contracts below decide what each unload / task-manager function does in one call
 """
 from pyvc.api import *  # noqa: F403
 
-from contracts.common import ASYNCIO_MODELS, RUST_MODELS, PEER_OBJ, clean_dict, FutureModel  # noqa: F401
+from contracts.common import ASYNCIO_MODELS, FUTURE, RUST_MODELS, PEER_OBJ, clean_dict, FutureModel  # noqa: F401
 from contracts.tunnel_common import *  # noqa: F403
 
 try:
@@ -75,6 +75,82 @@ contract(f"{TM}::TaskManager.shutdown_task_manager", "shutdown_task_manager", va
                   "old(self._shutdown) or all(f._done for f in self._pending_tasks.values())"],
          bounded="task table with 0..1 named task",
          note="every pending task is cancelled and the manager refuses new ones afterwards")
+
+
+
+def late_completion(self, name, f1, f2):
+    """HISTORY: f1 is registered under a name and cancelled by that name; before asyncio has run f1's completion callbacks (they
+    run in a later loop iteration - A7) f2 is registered under the same name; then the callbacks of f1 run."""
+    self.register_task(name, f1)
+    self.cancel_pending_task(name)
+    self.register_task(name, f2)
+    for cb in list(f1._callbacks):
+        cb(f1)
+    return self._pending_tasks.get(name)
+
+
+contract(f"{TM}::TaskManager.register_task", "register_task.completion-of-an-old-task-does-not-untrack-its-successor",
+         vars={"self": OBJ(f"{TM}::TaskManager", _pending_tasks=EXPR("{}"), _shutdown_tasks=EXPR("[]"), _task_lock=EXPR("nullcontext()"),
+                           _shutdown=EXPR("False"), _counter=INT, _logger=LOGGER()),
+               "name": STR, "f1": EXPR("mk_future(False)"), "f2": EXPR("mk_future(False)")},
+         call="late_completion(self, name, f1, f2)", raises=[],
+         ensures=["result is f2", "f1._cancelled and not f2._cancelled", "len(self._pending_tasks) == 1"],
+         covers=["result is not None"],
+         note="a task stays tracked under its name (and is therefore cancelled by cancel_pending_task / shutdown, and blocks a duplicate "
+              "registration) even when an earlier, cancelled task of the same name completes afterwards; the request cache relies on "
+              "it: add / pop / add of one cache object within one loop iteration must leave the second timeout cancellable")
+
+# ---------------------------------------------------------------------------------------------------------------------
+# the request cache of an overlay (unload() awaits request_cache.shutdown()): the gate is closed BEFORE shutdown suspends for the first
+# time, so a datagram handled while the cancelled timeouts are being awaited can no longer register a request (whose timeout would fire
+# after unload() has returned).  The full state contract of shutdown is in C10.
+RCF = "ipv8/requestcache.py"
+contract(f"{RCF}::RequestCache.shutdown", "RequestCache.shutdown.gate-closed-before-first-suspension",
+         vars={"SF1": EFFECT("future", done={"returns": BOOL}, cancel={}),
+               "self": OBJ(f"{RCF}::RequestCache", _identifiers=EXPR("{}"), _waiters=EXPR("{}"), lock=EXPR("nullcontext()"),
+                           _task_lock=EXPR("nullcontext()"), _shutdown=BOOL, _timeout_override=EXPR("None"), _timeout_filters=EXPR("None"),
+                           _logger=LOGGER())},
+         call="run_coro(self.shutdown())", raises=[],
+         stubs={f"{TM}::TaskManager.cancel_all_pending_tasks": {"event": "cancel_all_pending_tasks", "returns": EXPR("[SF1]"),
+                                                                "note": "A7: returns the cancelled tasks (own contract: shutdown_task_manager)"}},
+         on_effect={"await:gather": ["self._shutdown", "len(calls('cancel_all_pending_tasks')) == 1"]},
+         covers=["len(calls('await:gather')) == 1"],
+         ensures=["self._shutdown", "len(calls('cancel_all_pending_tasks')) == 1"],
+         note="nothing can be added to the cache from the moment shutdown first yields to the event loop")
+
+# ---------------------------------------------------------------------------------------------------------------------
+# socket ownership of an exit socket: every transport that has been opened is owned by the socket object before the opening task can be
+# suspended (and therefore cancelled) again, and close() releases whatever is owned
+TRANSPORT = EFFECT("transport", close={}, sendto={}, is_closing={"returns": BOOL})
+OPENING = EFFECT("opening", __await__={"returns": TRANSPORT})
+
+
+def enable_and_start(sock):
+    """enable(), then the first run of the task it registered (asyncio starts it in the next loop iteration - A7)"""
+    sock.enable()
+    starts = calls("register_task")
+    if len(starts) != 1:
+        return None
+    return run_coro(starts[0].named["user_task"]())
+
+
+contract(f"{ES}::TunnelExitSocket.enable", "enable.opened-transports-are-owned-at-once",
+         vars={"self": ROUTING(f"{ES}::TunnelExitSocket", hop=HOP(), enabled=EXPR("False"), overlay=EFFECT("overlay"),
+                               transport_ipv4=EXPR("None"), transport_ipv6=EXPR("None"), queue=EXPR("deque(maxlen=10)"))},
+         call="enable_and_start(self)", raises=[],
+         stubs={f"{TM}::TaskManager.register_task": {"event": "register_task", "returns": FUTURE, "note": "A7: scheduling only; own contract above"},
+                f"{ES}::TunnelProtocol.open": {"event": "open", "returns": OPENING,
+                                               "note": "opens a UDP socket (asyncio/OS): the result is a transport that must be closed by its owner"}},
+         on_effect={"await:opening": [
+             # when the task is suspended on its k-th open, the k-1 transports opened before are already attributes of the socket
+             "[self.transport_ipv4, self.transport_ipv6].count(None) == 2 - (len(calls('open')) - 1)"]},
+         ensures=["self.enabled", "len(calls('open')) == 2", "self.transport_ipv4 is not None and self.transport_ipv6 is not None",
+                  "self.transport_ipv4 is not self.transport_ipv6"],
+         covers=["len(calls('await:opening')) == 2"],
+         note="a cancellation (unload, removal) arriving while the second socket is being opened finds the first one on the object, so "
+              "close() can release it")
+
+exit_socket_close_contract()     # shared with C09 (reclamation): contracts/tunnel_common.py
 
 # ---------------------------------------------------------------------------------------------------------------------
 # listener removal
@@ -200,3 +276,24 @@ native("unload-scenario", "scenarios/c11_unload.py",
        bound="one history: default TunnelSettings (remove_tunnel_delay = 5 s), one enabled exit socket, unload(), one late datagram",
        functions=[f"{TC}::TunnelCommunity.unload", f"{TC}::TunnelCommunity.remove_exit_socket"],
        note="the exit socket is closed and its entry gone when unload returns; a datagram arriving afterwards reaches no handler")
+
+# ---------------------------------------------------------------------------------------------------------------------
+# the service level: unloading an overlay also un-schedules EVERY discovery strategy that walks for it (a strategy left in the list keeps
+# calling take_step() on the unloaded overlay on every tick)
+SVC = "ipv8_service.py"
+STRAT = lambda i: OBJ("ipv8/peerdiscovery/discovery.py::RandomWalk", overlay=EXPR(f"[inst, other][o{i}]"))  # noqa: E731
+contract(f"{SVC}::IPv8.unload_overlay", "unload_overlay.unschedules-every-strategy",
+         vars={"inst": EFFECT("instance", unload={}), "other": EFFECT("other_overlay", unload={}),
+               "s1": STRAT(1), "s2": STRAT(2), "s3": STRAT(3),
+               "self": OBJ(f"{SVC}::IPv8", overlay_lock=EXPR("nullcontext()"), overlays=EXPR("[inst, other]"),
+                           strategies=EXPR("[(s1, 10), (s2, 20), (s3, 30)][:n]"))},
+         instances=[{"n": n, "o1": a, "o2": b, "o3": c} for n in (0, 1, 2, 3) for a in (0, 1) for b in ((0, 1) if n >= 2 else (1,))
+                    for c in ((0, 1) if n >= 3 else (1,))],
+         call="self.unload_overlay(inst)", raises=[],
+         stubs={"ipv8/util.py::maybe_coroutine": {"event": "maybe_coroutine", "returns": "any", "note": "calls instance.unload (contracts above)"}},
+         ensures=["all(s.overlay is not inst for s, _ in self.strategies)",
+                  "[s for s, _ in self.strategies] == [s for s in [s1, s2, s3][:n] if s.overlay is other]",
+                  "all(o is not inst for o in self.overlays) and any(o is other for o in self.overlays)",
+                  "len(calls('maybe_coroutine')) == 1"],
+         bounded="0..3 scheduled strategies, each walking for the unloaded overlay or for another one (all 15 assignments)",
+         note="adjacent strategies of the same overlay are all removed; strategies of other overlays keep their order")
